@@ -103,3 +103,12 @@ package xlsx
 //@   loop 9:
 //@     invariant same(sheet.Name, name) && sheet.Index == index && sheet.MaxRow == maxRow - 1 && sheet.MaxCol == maxCol && len(sheet.Rows) == maxRow
 //@     invariant forall k int :: {sheet.Rows[k]} 0 <= k && k < len(sheet.Rows) ==> len(sheet.Rows[k]) == maxCol + 1
+
+// every declared relationship is recorded under its id (so that sheets are resolved by declaration, never by the
+// positional file-name fallback, whenever the workbook declares them)
+//@ func (*Reader) parseRelationships results (err)
+//@   property C18
+//@   flags nosafety
+//@   ensures all_recorded: !err && !(r.rels == old(r.rels) && r.sheetRels == old(r.sheetRels)) ==> forall k int :: {r.rels.Relationship[k]} 0 <= k && k < len(r.rels.Relationship) ==> has(r.sheetRels, r.rels.Relationship[k].ID)
+//@   loop 0:
+//@     invariant r.rels == entry(r.rels) && forall k int :: {r.rels.Relationship[k]} 0 <= k && k < $i ==> has(r.sheetRels, r.rels.Relationship[k].ID)
